@@ -244,7 +244,11 @@ theorem evalRT_filterT :
     · exact ⟨rfl, by simp only [HasTyR]; exact h⟩
   | .split c true e, t, h => by simp [HasTyR] at h
   | .merge _ _ _, _, h => by simp [HasTyR] at h
-  | .disabled _ _, _, h => by simp [HasTyR] at h
+  | .disabled d v, t, h => by
+    simp only [HasTyR] at h
+    have ih := evalRT_filterT v t h.2
+    simp only [filterT, evalRT, HasTyR, ih.1]
+    exact ⟨trivial, h.1, ih.2⟩
   | .fork c ix e, t, h => by
     have e' : filterT st t (.fork c ix e) = .fork c ix e := by simp [filterT]
     rw [e']; exact ⟨rfl, h⟩
@@ -426,7 +430,12 @@ theorem pushFork_evalRT :
       exact ⟨trivial, ih.2⟩
   | .split _ true _, _, _, h => by simp [HasTyR] at h
   | .merge _ _ _, _, _, h => by simp [HasTyR] at h
-  | .disabled _ _, _, _, h => by simp [HasTyR] at h
+  | .disabled d v, t, f, h => by
+    simp only [HasTyR] at h
+    have ih1 := pushFork_evalRT d _ f h.1
+    have ih2 := pushFork_evalRT v t f h.2
+    simp only [pushFork, evalRT, HasTyR, ih1.1, ih2.1]
+    exact ⟨trivial, ih1.2, ih2.2⟩
   | .fork c' ix' e, t, f, h => by
     simp only [HasTyR] at h
     simp only [pushFork]
